@@ -39,6 +39,8 @@ SPELLINGS = {
     "nonSoap#4": b'<?xml version="1.0" encoding="ISO-8859-1"?><html><body>caf\xe9</body></html>',
     "normal#1": None, "fault11#1": None, "faultDetail#1": None,
     "normal#2": None, "fault11#2": None, "fault12#2": None,
+    # white space before an XML declaration is not well-formed; around a document without one it is
+    "malformed#6": None, "malformed#7": None, "normal#3": None, "fault11#3": None,
 }
 
 
@@ -54,6 +56,10 @@ def body_bytes(kind, style):
     if kind in ("normal#2", "fault11#2", "fault12#2"):
         # ... and in UTF-16 (byte order mark + declaration): no ASCII substring of the document survives in the bytes
         return ('<?xml version="1.0" encoding="UTF-16"?>' + body_bytes(kind.split("#")[0], style).decode("utf-8")).encode("utf-16")
+    if kind in ("malformed#6", "malformed#7"):
+        return b"\n <?xml version='1.0' encoding='UTF-8'?>" + body_bytes("normal" if kind.endswith("6") else "fault11", style)
+    if kind in ("normal#3", "fault11#3"):
+        return b"\r\n\t " + body_bytes(kind.split("#")[0], style) + b"\n\n "
     if kind == "empty":
         return b""
     if kind == "malformed":
@@ -93,6 +99,22 @@ def make_wsdl(style):
         return wsdlkit.wsdl_doc(schema, "a", "r")
     return wsdlkit.wsdl_doc("", style="rpc", in_parts=[("a", "type", "xsd:string")],
                             out_parts=[("r", "type", "xsd:string")])
+
+
+def under_debug_logging(fn):
+    import logging
+    slog = logging.getLogger("suds")
+    sink = logging.NullHandler()
+    old_level, old_disable = slog.level, logging.root.manager.disable
+    slog.addHandler(sink)
+    slog.setLevel(logging.DEBUG)
+    logging.disable(logging.NOTSET)
+    try:
+        return fn()
+    finally:
+        logging.disable(old_disable)
+        slog.setLevel(old_level)
+        slog.removeHandler(sink)
 
 
 def outcome_of(fn, expect_value="hello"):
@@ -171,6 +193,10 @@ def run(ctx):
                         tr = wsdlkit.RecordingTransport(reply=te)
                         c4 = wsdlkit.client(w, faults=faults, retxml=retxml, transport=tr)
                         paths.append(("transport-error", lambda c4=c4: c4.service.f("x")))
+                        # ... and with debug logging switched on for suds: the classification does not depend on it
+                        te = suds.transport.TransportError("err", status, io.BytesIO(data))
+                        c6 = wsdlkit.client(w, faults=faults, retxml=retxml, transport=wsdlkit.RecordingTransport(reply=te))
+                        paths.append(("transport-error/debug-logging", lambda c6=c6: under_debug_logging(lambda: c6.service.f("x"))))
                         if body == "empty":
                             te2 = suds.transport.TransportError("err", status, None)
                             tr2 = wsdlkit.RecordingTransport(reply=te2)
